@@ -6,6 +6,7 @@ import (
 	"sort"
 	"os"
 	"fmt"
+	"go/constant"
 	"go/token"
 	"go/types"
 	"strings"
@@ -107,6 +108,10 @@ func (f *Frame) applyCall(v ssa.Value, c *ssa.CallCommon, callee *ssa.Function, 
 		u.inexact = true
 		u.note("call to " + what + " without contract: result and heap havoced")
 		f.havocCall(v, sig, st, true, tr, args)
+		if u.safety {
+			// nothing is known about the body: it may panic (panic-freedom of the caller is not claimed)
+			f.mayPanic(st, in, what+" (module function neither under contract nor inlined)")
+		}
 		return
 	}
 	if callee != nil && callee.Blocks == nil || callee == nil {
@@ -1302,6 +1307,16 @@ func (f *Frame) enterLoop(b *ssa.BasicBlock, ls *loopState, preds []*ssa.BasicBl
 			// incremented once per iteration: -1 <= index is inductive by construction
 			u.emit("(assert (>= " + x + " (- 1)))")
 		}
+		if step, ok := inductionStep(phi, b); ok && ls.phiEntry[phi].T != "" {
+			// an integer that every back edge reaches as itself plus a constant of one sign only
+			// moves away from its entry value: entry <= i (or i <= entry) is inductive by
+			// construction (mathematical integers, like everything in these units)
+			if step > 0 {
+				u.emit("(assert (>= " + x + " " + ls.phiEntry[phi].T + "))")
+			} else if step < 0 {
+				u.emit("(assert (<= " + x + " " + ls.phiEntry[phi].T + "))")
+			}
+		}
 		f.vals[phi] = Val{T: x, Typ: phi.Type()}
 		u.wellFormedLoaded(heap, x, phi.Type())
 	}
@@ -1897,4 +1912,61 @@ func (f *Frame) freshOrNilSlice(phi *ssa.Phi) bool {
 		}
 	}
 	return true
+}
+
+// inductionStep: phi is an integer loop variable whose every back-edge value is phi itself or
+// phi plus/minus a non-negative constant; the sign of the steps (all >= 0: +1, all <= 0: -1).
+func inductionStep(phi *ssa.Phi, header *ssa.BasicBlock) (int, bool) {
+	bt, ok := phi.Type().Underlying().(*types.Basic)
+	if !ok || bt.Info()&types.IsInteger == 0 {
+		return 0, false
+	}
+	sign := 0
+	nback := 0
+	for i, e := range phi.Edges {
+		pred := header.Preds[i]
+		if !header.Dominates(pred) {
+			continue // entry edge
+		}
+		nback++
+		if e == ssa.Value(phi) {
+			continue
+		}
+		bo, ok := e.(*ssa.BinOp)
+		if !ok || (bo.Op != token.ADD && bo.Op != token.SUB) {
+			return 0, false
+		}
+		var c *ssa.Const
+		if bo.X == ssa.Value(phi) {
+			c, _ = bo.Y.(*ssa.Const)
+		} else if bo.Y == ssa.Value(phi) && bo.Op == token.ADD {
+			c, _ = bo.X.(*ssa.Const)
+		}
+		if c == nil || c.Value == nil || c.Value.Kind() != constant.Int {
+			return 0, false
+		}
+		k, exact := constant.Int64Val(c.Value)
+		if !exact {
+			return 0, false
+		}
+		if bo.Op == token.SUB {
+			k = -k
+		}
+		s := 0
+		if k > 0 {
+			s = 1
+		} else if k < 0 {
+			s = -1
+		}
+		if s != 0 {
+			if sign != 0 && sign != s {
+				return 0, false
+			}
+			sign = s
+		}
+	}
+	if nback == 0 || sign == 0 {
+		return 0, false
+	}
+	return sign, true
 }
